@@ -4,6 +4,9 @@ import os
 
 # property -> rules deciding its structural clauses (DESIGN.md section 4)
 PROPS = {
+    'C01': ['DISPATCH', 'ACDUAL'],
+    'C07': ['DISPATCH', 'ACDUAL'],
+    'C09': ['DISPATCH', 'ACDUAL', 'MEMO', 'HASHEQ'],
     'C11': ['COW'],
     'C20': ['INIT', 'FALLOFF'],
 }
